@@ -1,7 +1,7 @@
 package props
 
 import (
-		"fmt"
+	"fmt"
 	"strings"
 
 	"verif/sim"
